@@ -2,7 +2,8 @@
    State machines with the random draws, the objective estimates and the update steps as inputs
    (Alg/C13Samplers.v, Alg/C13Solver.v, Alg/C13Steps.v).  Only statements, `exact`, Print Assumptions. *)
 From Coq Require Import List ZArith Arith Bool QArith Qcanon.
-From PV Require Import Base.Index Np.Array Model.Sparse Alg.C13Samplers Alg.C13Solver Alg.C13Steps Alg.C13Harness.
+From PV Require Import Base.Index Np.Array Model.Sparse Alg.C13Samplers Alg.C13Solver Alg.C13Steps Alg.C13Config Alg.C13Harness.
+From PV Require Import Model.Repr Model.C08Kruskal Alg.C13Vec.
 Import ListNotations.
 Local Open Scope nat_scope.
 
@@ -29,11 +30,11 @@ Theorem C13_trace_len : forall max_iters m0 o0,
   length (hist _ _ _ s) = epochs _ _ _ s.
 Proof. exact (trace_length M O E leb leb_total leb_trans fest epoch on_fail max_fails tol). Qed.
 
-(* finding A-35: the slice [0 : n_epoch + 1] the code reports is the trace WITHOUT its last value as soon as one epoch ran *)
-Theorem C13_reported_trace_drops_last : forall max_iters m0 o0,
-  let s := slv max_iters m0 o0 in
-  1 <= epochs _ _ _ s -> reported_trace M O E fest m0 s = removelast (full_trace M O E fest m0 s).
-Proof. exact (reported_trace_drops_last M O E leb fest epoch on_fail max_fails tol). Qed.
+(* the trace the code reports — the slice [0 : n_epoch + 2] of the zero-initialised array of max_iters + 1 entries — is the
+   full trace: the starting value and one value per completed epoch, nothing dropped, no padding (A-35 repaired) *)
+Theorem C13_reported_trace_full : forall pad max_iters m0 o0,
+  let s := slv max_iters m0 o0 in reported_trace M O E fest pad max_iters m0 s = full_trace M O E fest m0 s.
+Proof. exact (reported_trace_full M O E leb fest epoch on_fail max_fails tol). Qed.
 
 (* whatever every epoch preserves / establishes (all entries >= lower bound) holds for the returned model *)
 Theorem C13_returned_invariant : forall (P : M -> Prop) max_iters m0 o0,
@@ -45,27 +46,154 @@ Theorem C13_returned_established : forall (P : M -> Prop) max_iters m0 o0,
   let s := slv max_iters m0 o0 in cur _ _ _ s = m0 \/ P (cur _ _ _ s).
 Proof. exact (returned_established M O E leb leb_total leb_trans fest epoch on_fail max_fails tol). Qed.
 
-(* reuse: _nfails is reset at entry; an optimizer without private state (SGD) gives the same outcome whatever the
-   object went through before *)
-Theorem C13_reuse_stateless : (forall o1 o2 : O, o1 = o2) ->
-  forall obj1 obj2 max_iters m0,
-    solve_obj M O E leb fest epoch on_fail max_fails tol obj1 max_iters m0 =
-    solve_obj M O E leb fest epoch on_fail max_fails tol obj2 max_iters m0.
-Proof. exact (reuse_stateless M O E leb fest epoch on_fail max_fails tol). Qed.
 End SolverProps.
 
 Print Assumptions C13_best_model.
 Print Assumptions C13_trace_len.
-Print Assumptions C13_reported_trace_drops_last.
+Print Assumptions C13_reported_trace_full.
 Print Assumptions C13_returned_invariant.
 Print Assumptions C13_returned_established.
-Print Assumptions C13_reuse_stateless.
 
-(* finding A-36: private state that survives a solve (Adam's moments and step counter, Adagrad's accumulated gradient
-   norm) makes the next solve depend on the object's past — two-solve witness *)
-Theorem C13_reuse_stateful_refuted : ~ reuse_stmt.
-Proof. exact reuse_stateful_refuted. Qed.
-Print Assumptions C13_reuse_stateful_refuted.
+(* reuse (A-36 repaired): solve starts with `self._nfails = 0; self.reset_state()`.  Whatever the object went through
+   before — any _nfails, any private state — the outcome is the one of a fresh object; stated for the three optimizers
+   with their own reset_state, for every epoch function (update steps and gradient samples are inputs), and for whole
+   sequences of solves on one object *)
+Section ReuseProps.
+Variables M E : Type.
+Variable leb : E -> E -> bool.
+Variables (fest : M -> E) (max_fails : nat) (tol : option E).
+
+(* SGD: no private state, reset_state() does nothing *)
+Theorem C13_reuse_sgd : forall (epoch : nat -> nat -> unit -> M -> M * unit) on_fail obj1 obj2 max_iters m0,
+  solve_obj M unit E leb fest epoch on_fail (fun o => o) max_fails tol obj1 max_iters m0 =
+  solve_obj M unit E leb fest epoch on_fail (fun o => o) max_fails tol obj2 max_iters m0.
+Proof.
+  intros epoch on_fail. apply (reuse_reset M unit E leb fest epoch on_fail (fun o => o) max_fails tol).
+  intros [] []. reflexivity.
+Qed.
+
+(* Adam: _m, _v, _m_prev, _v_prev, _total_iterations are forgotten *)
+Theorem C13_reuse_adam : forall (V : Type) (epoch : nat -> nat -> adam_state V -> M -> M * adam_state V) on_fail obj1 obj2 max_iters m0,
+  solve_obj M (adam_state V) E leb fest epoch on_fail (adam_reset V) max_fails tol obj1 max_iters m0 =
+  solve_obj M (adam_state V) E leb fest epoch on_fail (adam_reset V) max_fails tol obj2 max_iters m0.
+Proof.
+  intros V epoch on_fail. apply (reuse_reset M (adam_state V) E leb fest epoch on_fail (adam_reset V) max_fails tol).
+  exact (adam_reset_const V).
+Qed.
+
+(* Adagrad: _gnormsum is forgotten *)
+Theorem C13_reuse_adagrad : forall (V : Type) (v0 : V) (epoch : nat -> nat -> V -> M -> M * V) on_fail obj1 obj2 max_iters m0,
+  solve_obj M V E leb fest epoch on_fail (adagrad_reset V v0) max_fails tol obj1 max_iters m0 =
+  solve_obj M V E leb fest epoch on_fail (adagrad_reset V v0) max_fails tol obj2 max_iters m0.
+Proof.
+  intros V v0 epoch on_fail. apply (reuse_reset M V E leb fest epoch on_fail (adagrad_reset V v0) max_fails tol).
+  exact (adagrad_reset_const V v0).
+Qed.
+
+(* every solve of a sequence issued to ONE object equals the same solve on a fresh object *)
+Theorem C13_reuse_sequence : forall (O : Type) (epoch : nat -> nat -> O -> M -> M * O) on_fail reset,
+  (forall o1 o2 : O, reset o1 = reset o2) ->
+  forall fresh reqs obj,
+    solve_seq M O E leb fest epoch on_fail reset max_fails tol obj reqs =
+    map (fun q => solve_obj M O E leb fest epoch on_fail reset max_fails tol fresh (fst q) (snd q)) reqs.
+Proof. intros O epoch on_fail reset. exact (reuse_sequence M O E leb fest epoch on_fail reset max_fails tol). Qed.
+End ReuseProps.
+Print Assumptions C13_reuse_sgd.
+Print Assumptions C13_reuse_adam.
+Print Assumptions C13_reuse_adagrad.
+Print Assumptions C13_reuse_sequence.
+
+(* ================================ L-BFGS-B wrapper (scipy is an oracle) ========================= *)
+(* under the stated contract of scipy.optimize.fmin_l_bfgs_b (same length, reported value = objective at the returned point,
+   never worse than the start, feasible stays feasible): bounds list, callback slot restored, result vector <-> model,
+   objective <= initial *)
+Theorem C13_lbfgsb_wrap : forall (Mdl V F CB KW : Type) (leb : F -> F -> bool) (vle : V -> V -> Prop)
+  (tovec : Mdl -> list V) (update : Mdl -> list V -> Mdl) (objective : Mdl -> F) (wf : Mdl -> Prop),
+  (forall m, wf m -> update m (tovec m) = m) ->
+  (forall m v, length v = length (tovec m) -> tovec (update m v) = v) ->
+  forall scipy, scipy_contract V F CB KW leb vle scipy -> forall cb other m0 lb, wf m0 ->
+  let o := lbfgsb_solve Mdl V F CB KW tovec update objective scipy (mkKw CB KW (UserCb CB cb) other) m0 lb in
+  o_bounds _ _ _ _ _ o = repeat (lb, None) (length (tovec m0)) /\
+  kw_callback _ _ (o_kwargs_during _ _ _ _ _ o) = MonitorOf CB cb /\ o_kwargs _ _ _ _ _ o = mkKw CB KW (UserCb CB cb) other /\
+  tovec (o_model _ _ _ _ _ o) = o_final_vector _ _ _ _ _ o /\ objective (o_model _ _ _ _ _ o) = o_final_f _ _ _ _ _ o /\
+  leb (objective (o_model _ _ _ _ _ o)) (objective m0) = true /\
+  (Forall (within V vle lb) (tovec m0) -> Forall (within V vle lb) (tovec (o_model _ _ _ _ _ o))).
+Proof. intros Mdl V F CB KW leb vle tovec update objective wf H1 H2 scipy. exact (lbfgsb_wrap Mdl V F CB KW leb vle tovec update objective wf H1 H2 scipy). Qed.
+Print Assumptions C13_lbfgsb_wrap.
+
+(* the same for Kruskal models as they are (tovec = ktensor.tovec(False), update = ktensor.update(arange(ndims), .) from the
+   C08 model): the two round-trip hypotheses are theorems there (Alg/C13Vec.v); the bounds list has rank * sum(shape) pairs
+   and shape / rank of the result are those of the start *)
+Theorem C13_lbfgsb_wrap_ktensor : forall (V : Type) (v0 : V) (F CB KW : Type) (leb : F -> F -> bool) (vle : V -> V -> Prop)
+  (objective : ktensor V -> F) scipy,
+  scipy_contract V F CB KW leb vle scipy -> forall cb other (K0 : ktensor V) lb, wf_k K0 ->
+  let o := lbfgsb_solve (ktensor V) V F CB KW (tovec_f V v0) (update_all V v0) objective scipy (mkKw CB KW (UserCb CB cb) other) K0 lb in
+  o_bounds _ _ _ _ _ o = repeat (lb, None) (krank K0 * sum_nat (kshape K0)) /\
+  kw_callback _ _ (o_kwargs_during _ _ _ _ _ o) = MonitorOf CB cb /\ o_kwargs _ _ _ _ _ o = mkKw CB KW (UserCb CB cb) other /\
+  tovec_f V v0 (o_model _ _ _ _ _ o) = o_final_vector _ _ _ _ _ o /\ objective (o_model _ _ _ _ _ o) = o_final_f _ _ _ _ _ o /\
+  leb (objective (o_model _ _ _ _ _ o)) (objective K0) = true /\
+  (Forall (within V vle lb) (tovec_f V v0 K0) -> Forall (within V vle lb) (tovec_f V v0 (o_model _ _ _ _ _ o))) /\
+  kshape (o_model _ _ _ _ _ o) = kshape K0 /\ krank (o_model _ _ _ _ _ o) = krank K0.
+Proof. exact lbfgsb_wrap_ktensor. Qed.
+Print Assumptions C13_lbfgsb_wrap_ktensor.
+
+Theorem C13_lbfgsb_reuse : forall (Mdl V F CB KW : Type) (tovec : Mdl -> list V) (update : Mdl -> list V -> Mdl) (objective : Mdl -> F)
+  scipy cb other m0 lb m1 lb1,
+  let kw := mkKw CB KW (UserCb CB cb) other in
+  lbfgsb_solve Mdl V F CB KW tovec update objective scipy (o_kwargs _ _ _ _ _ (lbfgsb_solve Mdl V F CB KW tovec update objective scipy kw m0 lb)) m1 lb1 =
+  lbfgsb_solve Mdl V F CB KW tovec update objective scipy kw m1 lb1.
+Proof. intros Mdl V F CB KW tovec update objective. exact (lbfgsb_reuse Mdl V F CB KW tovec update objective). Qed.
+Print Assumptions C13_lbfgsb_reuse.
+
+(* ================================ GCPSampler default-count rules =============================== *)
+Local Open Scope Z_scope.
+Theorem C13_sampler_defaults_feasible : forall sparse size nnz max_iters k, 0 <= nnz <= size -> 0 < max_iters ->
+  (fn_config sparse size nnz k RNone <> CError -> conf_feasible size nnz (fn_config sparse size nnz k RNone)) /\
+  (gr_config sparse size nnz max_iters k RNone <> CError -> conf_feasible size nnz (gr_config sparse size nnz max_iters k RNone)).
+Proof.
+  intros sparse size nnz max_iters k H Hm.
+  exact (conj (fn_default_feasible sparse size nnz k H) (gr_default_feasible sparse size nnz max_iters k H Hm)).
+Qed.
+Print Assumptions C13_sampler_defaults_feasible.
+
+Theorem C13_sampler_defaults_small : forall size nnz max_iters, 0 <= nnz <= size -> 0 < max_iters ->
+  (nnz <= 10 ^ 5 -> fn_config true size nnz None RNone = CStratified nnz (Z.min nnz (size - nnz))) /\
+  (size <= 10 ^ 6 -> fn_config false size nnz None RNone = CUniform size) /\
+  (nnz <= 1000 -> gr_config true size nnz max_iters None RNone = CStratified nnz (Z.min nnz (size - nnz))) /\
+  (size <= 1000 -> gr_config false size nnz max_iters None RNone = CUniform size).
+Proof.
+  intros size nnz max_iters H Hm.
+  exact (conj (proj1 (fn_default_small size nnz H)) (conj (proj2 (fn_default_small size nnz H)) (gr_default_small size nnz max_iters H Hm))).
+Qed.
+Print Assumptions C13_sampler_defaults_small.
+
+Theorem C13_sampler_table : forall sparse size nnz max_iters n nz z req,
+  (fn_config sparse size nnz (Some Uniform) (RInt n) = CUniform n /\
+   fn_config true size nnz (Some Stratified) (RInt n) = CStratified n n /\
+   fn_config true size nnz (Some Stratified) (RStrat nz z) = CStratified nz z /\
+   gr_config false size nnz max_iters (Some Uniform) (RInt n) = CUniform n /\
+   gr_config true size nnz max_iters (Some Uniform) (RInt n) = CPoisson n size nnz /\
+   gr_config true size nnz max_iters (Some Stratified) (RInt n) = CStratified n n /\
+   gr_config true size nnz max_iters (Some Stratified) (RStrat nz z) = CStratified nz z /\
+   gr_config sparse size nnz max_iters (Some Semistratified) (RInt n) = CSemistrat n n /\
+   gr_config sparse size nnz max_iters (Some Semistratified) (RStrat nz z) = CSemistrat nz z) /\
+  (fn_config false size nnz (Some Stratified) req = CError /\
+   gr_config false size nnz max_iters (Some Stratified) req = CError /\
+   fn_config sparse size nnz (Some Semistratified) req = CError /\
+   fn_config sparse size nnz (Some Uniform) (RStrat nz z) = CError /\
+   gr_config sparse size nnz max_iters (Some Uniform) (RStrat nz z) = CError) /\
+  (default_kind sparse None = (if sparse then Stratified else Uniform) /\
+   crng_len (fn_config sparse size nnz None req) = 0 /\
+   crng_len (gr_config sparse size nnz max_iters None req) = 0 /\
+   (forall nz z, gr_config sparse size nnz max_iters (Some Semistratified) req = CSemistrat nz z ->
+                 crng_len (gr_config sparse size nnz max_iters (Some Semistratified) req) = nz)).
+Proof.
+  intros sparse size nnz max_iters n nz z req.
+  exact (conj (explicit_requests sparse size nnz max_iters n nz z)
+        (conj (rejected_requests size nnz max_iters req nz z sparse) (kind_defaults_and_crng sparse size nnz max_iters req))).
+Qed.
+Print Assumptions C13_sampler_table.
+Local Close Scope Z_scope.
 
 (* ================================ projected update steps ======================================= *)
 (* every entry of the factor matrices after an SGD / Adam / Adagrad step is >= the lower bound, whatever the
@@ -95,24 +223,23 @@ Print Assumptions C13_bounds_epoch.
 
 (* ================================ samplers (draws are inputs) ================================== *)
 Local Open Scope Z_scope.
-(* one uniform draw u = a/D in (0,1] gives a subscript inside the mode; u = 0 gives -1 (finding A-48) *)
-Theorem C13_draw_in_range : forall D a d, 0 < D -> 0 < a <= D -> 0 < d -> 0 <= draw_sub D a d < d.
+(* one draw u = a/D in [0,1) — 0.0 included — gives floor(u*d), a subscript inside the mode (A-48 repaired) ... *)
+Theorem C13_draw_in_range : forall D a d, 0 < D -> 0 <= a < D -> 0 < d -> 0 <= draw_sub D a d < d.
 Proof. intros D a d HD. exact (draw_sub_range D HD a d). Qed.
 Print Assumptions C13_draw_in_range.
-Theorem C13_draw_zero_out_of_range : forall D d, 0 < D -> draw_sub D 0 d = -1.
-Proof. intros D d HD. exact (draw_sub_zero D HD d). Qed.
-Print Assumptions C13_draw_zero_out_of_range.
-(* semi-stratified "zero" subscripts are inside the mode but never its first index for u > 0 (finding A-48) *)
-Theorem C13_draw_semi : forall D a d, 0 < D -> 0 < d ->
-  (0 <= a <= D -> 0 <= draw_sub_semi D a d < d) /\ (0 < a -> 1 < d -> 0 < draw_sub_semi D a d).
+(* ... and every index of the mode is reachable, the first by u = 0 and the last by u = 1 - 1/D (for uniform, zeros and
+   semi-stratified alike: they share the same draw) *)
+Theorem C13_draw_onto : forall D d, 0 < D -> 0 < d <= D ->
+  (forall j, 0 <= j < d -> exists a, 0 <= a < D /\ draw_sub D a d = j) /\ draw_sub D 0 d = 0 /\ draw_sub D (D - 1) d = d - 1.
 Proof.
-  intros D a d HD Hd. split; [exact (fun H => draw_sub_semi_range D HD a d H Hd) | exact (draw_sub_semi_never_first D HD a d)].
+  intros D d HD Hd.
+  exact (conj (fun j => draw_sub_onto D HD d j Hd) (conj (draw_sub_first D HD d (proj1 Hd)) (draw_sub_last D d Hd))).
 Qed.
-Print Assumptions C13_draw_semi.
+Print Assumptions C13_draw_onto.
 
 (* uniform: one subscript row, one value per sample; subscripts inside the tensor; values = data there *)
 Theorem C13_uniform : forall (V : Type) (v0 : V) D (X : dense V) draws, 0 < D ->
-  pos_shape (dshape X) -> Forall (pos_draws D (dshape X)) draws ->
+  pos_shape (dshape X) -> Forall (unit_draws D (dshape X)) draws ->
   length (uniform_subs D (dshape X) draws) = length draws /\ length (uniform_vals D v0 X draws) = length draws /\
   Forall2 (fun row v => exists i, row = zidx i /\ inb (dshape X) i = true /\ v = den_dense v0 X i)
           (uniform_subs D (dshape X) draws) (uniform_vals D v0 X draws).
@@ -136,7 +263,7 @@ Print Assumptions C13_nonzero_samples.
 
 (* zero samples of the stratified sampler are inside the tensor and are true zeros of the data *)
 Theorem C13_zero_samples_true_zeros : forall (V : Type) (v0 : V) D (S : sparse V) nzidx draws req, 0 < D ->
-  pos_shape (sshape S) -> Forall (pos_draws D (sshape S)) draws -> nzidx_ok S nzidx ->
+  pos_shape (sshape S) -> Forall (unit_draws D (sshape S)) draws -> nzidx_ok S nzidx ->
   Forall (fun row => exists i, row = zidx i /\ inb (sshape S) i = true /\ den_sp v0 S i = v0)
          (zero_subs D (sshape S) nzidx draws req).
 Proof. intros V v0 D S nzidx draws req HD. exact (zero_subs_true_zeros D HD v0 S nzidx draws req). Qed.
@@ -158,7 +285,7 @@ Theorem C13_semistrat : forall (V : Type) (v0 : V) D (S : sparse V) nidx draws, 
   (length (semi_subs D S nidx draws) = (length nidx + length draws)%nat /\
    length (semi_vals v0 S nidx draws) = (length nidx + length draws)%nat) /\
   (pos_shape (sshape S) -> Forall (unit_draws D (sshape S)) draws ->
-   Forall (in_rangeZ (sshape S)) (map (draw_row_semi D (sshape S)) draws)).
+   Forall (in_rangeZ (sshape S)) (map (draw_row D (sshape S)) draws)).
 Proof.
   intros V v0 D S nidx draws HD. exact (conj (semi_lengths D v0 S nidx draws) (semi_in_range D HD S draws)).
 Qed.
@@ -170,17 +297,35 @@ Theorem C13_sampler_weights : forall (c : Qc) (n : nat), (0 < n)%nat ->
 Proof. exact even_weights_total. Qed.
 Print Assumptions C13_sampler_weights.
 
-(* non-vacuity / witnesses on concrete non-symmetric instances *)
-Example C13_example_zero_draw :
-  zuniform_subs [2; 3]%nat [[0; D53 / 2]] = [[-1; 1]] /\ in_rangeZb [2; 3]%nat [-1; 1] = false.
-Proof. exact uniform_zero_draw_out_of_range. Qed.
-Example C13_example_short_supply :
+(* non-vacuity on concrete non-symmetric instances *)
+Example C13_example_extreme_draws :
+  zuniform_subs [2; 3]%nat [[0; D53 - 1]; [D53 / 2; D53 / 3]] = [[0; 2]; [1; 0]] /\
+  forallb (in_rangeZb [2; 3]%nat) (zuniform_subs [2; 3]%nat [[0; D53 - 1]; [D53 / 2; D53 / 3]]) = true.
+Proof. exact uniform_extreme_draws_in_range. Qed.
+Example C13_example_short_supply :     (* open finding C13-S1 *)
   let S := mkSp [2; 2]%nat [[0; 0]; [1; 0]; [0; 1]]%nat [5; 6; 7] in
-  let draws := [[1; 1]; [D53; D53]; [D53; 1]] in
+  let draws := [[0; 0]; [D53 - 1; D53 - 1]; [D53 - 1; 0]] in
   length (zstrat_subs S [0; 1; 2] [1%nat] draws 2) = 2%nat /\ length (zstrat_vals S [1%nat] 2) = 3%nat.
 Proof. exact stratified_short_supply_lengths_differ. Qed.
-Example C13_example_solve :     (* estimates 10, 7, 9 (failed), 4: best = epoch 3, trace reported without the 4 *)
+Example C13_example_solve :     (* estimates 10, 7, 9 (failed), 4: best = epoch 3, the reported trace has all four values *)
   let s := zsolve [10; 7; 9; 4] 1 None 3 in
-  cur _ _ _ s = 3%nat /\ zfull_trace [10; 7; 9; 4] s = [10; 7; 9; 4] /\ zreported_trace [10; 7; 9; 4] s = [10; 7; 9] /\
+  cur _ _ _ s = 3%nat /\ zfull_trace [10; 7; 9; 4] s = [10; 7; 9; 4] /\ zreported_trace [10; 7; 9; 4] 3 s = [10; 7; 9; 4] /\
   nfails _ _ _ s = 1%nat.
 Proof. repeat split; reflexivity. Qed.
+Example C13_example_reuse :     (* an Adagrad-like accumulator: with reset_state the second solve on the same object equals the first *)
+  let s1 := w_solve (fun _ => 0%nat) (0%nat, 0%nat) in
+  cur _ _ _ s1 = 96%nat /\ obj_after _ _ _ s1 = (0%nat, 3%nat) /\ cur _ _ _ (w_solve (fun _ => 0%nat) (obj_after _ _ _ s1)) = 96%nat /\
+  cur _ _ _ (w_solve (fun o => o) (obj_after _ _ _ s1)) = 98%nat.
+Proof. exact reuse_example_reset. Qed.
+Example C13_example_config :
+  (fn_config true (10 ^ 9) 250000 None RNone = CStratified 100000 100000 /\
+  gr_config true (10 ^ 9) 250000 1000 None RNone = CStratified 1000 1000 /\
+  fn_config false 12000000 12000000 None RNone = CUniform 1200000 /\
+  gr_config false 12000000 12000000 1000 None RNone = CUniform 120000 /\
+  fn_config true 6 5 None RNone = CStratified 5 1 /\
+  gr_config true 6 5 1000 (Some Semistratified) (RStrat 2 3) = CSemistrat 2 3)%Z.
+Proof. exact config_examples. Qed.
+Example C13_example_vec :
+  tovec_f nat 0%nat (mkK (1 :: 1 :: nil)%nat (((1 :: 2 :: nil) :: (3 :: 4 :: nil) :: (5 :: 6 :: nil) :: nil) :: ((7 :: 8 :: nil) :: (9 :: 10 :: nil) :: nil) :: nil)%nat)
+  = (1 :: 3 :: 5 :: 2 :: 4 :: 6 :: 7 :: 9 :: 8 :: 10 :: nil)%nat.
+Proof. reflexivity. Qed.
